@@ -238,6 +238,20 @@ func (g *Gen) Key() (string, []byte) {
 
 // wrap picks how a blob is saved: raw (the blob's size is not known here, so
 // only the minimal form or the always-fitting 32/64-bit forms) or LZF.
+// KeyReserved generates a fresh key under one of the tool's reserved prefixes
+// (always black-listed by the output filter).
+func (g *Gen) KeyReserved() (string, []byte) {
+	for {
+		k := append([]byte{}, vfutil.Pick(g.R, reservedPrefixes)...)
+		k = append(k, g.bytesVal(6)...)
+		if g.used[string(k)] {
+			continue
+		}
+		g.used[string(k)] = true
+		return "r" + g.lenForm(len(k)) + ":" + hx(k), k
+	}
+}
+
 func (g *Gen) wrap() string {
 	if g.R.Chance(1, 3) {
 		return "wz"
@@ -583,6 +597,9 @@ func (g *Gen) ObjKind(kind string) (string, *Val, string) {
 // ---------------------------------------------------------------- file
 
 type FileOpts struct {
+	// Reserved: keys under the reserved prefixes are generated too, preferably as the
+	// first key of a database
+	Reserved bool
 	MaxKeys  int
 	Now      uint64 // replay clock (ms), to place expiries around it
 	MultiDB  bool
@@ -610,7 +627,9 @@ func (g *Gen) File(o FileOpts) *Dataset {
 	nk := g.R.Intn(o.MaxKeys + 1)
 	first := true
 	for i := 0; i < nk; i++ {
+		newDB := false
 		if first || (o.MultiDB && g.R.Chance(1, 4)) {
+			newDB = true
 			if !first || g.R.Chance(3, 4) {
 				if !first {
 					db += g.R.Range(1, 3)
@@ -654,6 +673,9 @@ func (g *Gen) File(o FileOpts) *Dataset {
 			freq = strconv.Itoa(g.R.Intn(256))
 		}
 		kt, k := g.Key()
+		if o.Reserved && ((newDB && g.R.Chance(1, 3)) || g.R.Chance(1, 20)) {
+			kt, k = g.KeyReserved()
+		}
 		ot, val, kind := g.Obj()
 		toks = append(toks, "k", exp, idle, freq, kt, ot)
 		ds.Keys = append(ds.Keys, ExpKey{DB: db, Key: k, ExpireAt: expAt, Val: val, Kind: kind})
